@@ -4,7 +4,7 @@ from . import coq, forest as F, mch
 
 PRE = """From Coq Require Import NArith ZArith List Bool.
 Import ListNotations.
-Require Import UV.Gen.Consts UV.Mcount.Model UV.Mcount.Forest UV.Mcount.SelectSpec UV.Mcount.SelectSpec2 UV.Mcount.Check.
+Require Import UV.Gen.Consts UV.Mcount.Model UV.Mcount.Forest UV.Mcount.SelectSpec UV.Mcount.SelectSpec2 UV.Mcount.Check UV.Mcount.Table.
 Local Open Scope N_scope.
 """
 
